@@ -2383,6 +2383,9 @@ namespace igris
 
         static_vector &operator=(const static_vector &other)
         {
+            if (this == &other)
+                return *this;
+            clear();
             m_size = other.m_size;
             for (igris::size_t pos = 0; pos < m_size; ++pos)
             {
@@ -2393,6 +2396,9 @@ namespace igris
 
         static_vector &operator=(static_vector &&other)
         {
+            if (this == &other)
+                return *this;
+            clear();
             m_size = other.m_size;
             for (igris::size_t pos = 0; pos < m_size; ++pos)
             {
